@@ -35,6 +35,9 @@ type EP struct {
 	HealthURL    string // override
 	ModelURL     string // override
 	Filter       *struct{ Include, Exclude []string }
+	// URL replaces the backend's own URL as the endpoint URL (an unreachable address, a blackholed port); the health
+	// and model-listing URLs stay on the backend's side listener, so the endpoint looks alive to the checker
+	URL string
 }
 
 type Opts struct {
@@ -115,7 +118,11 @@ func Boot(o Opts) (*Olla, error) {
 				mu = e.B.ModelsPath
 			}
 		}
-		ec := config.EndpointConfig{URL: e.B.URL() + e.BasePath, Name: e.B.Name, Type: t, Priority: intp(e.Priority),
+		epURL := e.B.URL()
+		if e.URL != "" {
+			epURL = e.URL
+		}
+		ec := config.EndpointConfig{URL: epURL + e.BasePath, Name: e.B.Name, Type: t, Priority: intp(e.Priority),
 			HealthCheckURL: hu, ModelURL: mu, CheckInterval: ci, CheckTimeout: 2 * time.Second, PreservePath: e.PreservePath}
 		cfg.Discovery.Static.Endpoints = append(cfg.Discovery.Static.Endpoints, ec)
 	}
